@@ -959,7 +959,7 @@ func TestVerifC39(t *testing.T) {
 	}()
 	st := &c39Stats{}
 	maxSnaps := ev.Pick(r, 1, 2)
-	writes := ev.Pick(r, []string{"w:0", "w:1", "c:2"}, []string{"w:0", "w:1", "c:1", "c:2"})
+	writes := []string{"w:0", "w:1", "c:2"}
 	res := mc.Run(r, mc.System{
 		Name:          "hashslot-migration",
 		New:           func() mc.Instance { return c39New(r, st, maxSnaps, writes) },
